@@ -5,6 +5,7 @@ import (
 	"go/token"
 	"go/types"
 	"os"
+	"runtime"
 	"slices"
 	"strings"
 
@@ -398,7 +399,7 @@ func (in *Interp) runInit(pkg *ssa.Package, fn *ssa.Function) {
 		in.curFrame = saved
 		if r := recover(); r != nil {
 			switch r.(type) {
-			case unsupportedErr, targetPanic:
+			case unsupportedErr, targetPanic, string, runtime.Error:
 				// leave remaining globals zero / poisoned
 				if in.ex.cfg.Verbose {
 					fmt.Fprintf(os.Stderr, "init of %s stopped: %v\n", pkg.Pkg.Path(), r)
@@ -550,6 +551,19 @@ func (in *Interp) callSSA(caller *frame, site ssa.Instruction, fn *ssa.Function,
 			if r := recover(); r != nil {
 				if u, ok := r.(unsupportedErr); ok {
 					result = in.poisonResults(fn.Signature, u.msg)
+					return
+				}
+				// engine-internal failures (a construct the executor has no model for)
+				// and target panics inside an initialiser poison the result as well
+				switch rr := r.(type) {
+				case string:
+					result = in.poisonResults(fn.Signature, "engine: "+rr)
+					return
+				case runtime.Error:
+					result = in.poisonResults(fn.Signature, "engine: "+rr.Error())
+					return
+				case targetPanic:
+					result = in.poisonResults(fn.Signature, "panic in initialiser: "+describe(rr.v))
 					return
 				}
 				panic(r)
